@@ -182,8 +182,7 @@ def _r20e(rep):
     table, default = {}, None
     top = [s for s in ge.body if isinstance(s, ast.If)]
     rets = [s for s in ge.body if isinstance(s, ast.Return) and s.value is not None]
-    if top:
-        node = top[-1]
+    for node in top:
         while isinstance(node, ast.If):
             t = node.test
             if isinstance(t, ast.Compare) and core.src(t.left) == par and isinstance(t.ops[0], ast.Eq) and isinstance(t.comparators[0], ast.Constant) and node.body and isinstance(node.body[0], ast.Return):
@@ -197,7 +196,7 @@ def _r20e(rep):
                 elif not nxt and rets:
                     default = core.src(rets[-1].value)
                 break
-    elif rets:
+    if not top and rets:
         v = core.resolve_name(ge, rets[-1].value)
         d = None
         if isinstance(v, ast.Call) and isinstance(v.func, ast.Attribute) and v.func.attr == "get" and v.args and core.src(v.args[0]) == par:
